@@ -47,7 +47,9 @@ class SequenceObserver:
         self._observers = []
 
     def when_next_event(self):
-        d = Deferred()
+        # a waiting Deferred that gets cancelled (e.g. by addTimeout) must
+        # not receive, and thereby swallow, the next event
+        d = Deferred(self._forget_observer)
         if self._error:
             self._eq.eventually(d.errback, self._error)
         elif self._results:
@@ -56,6 +58,10 @@ class SequenceObserver:
         else:
             self._observers.append(d)
         return d
+
+    def _forget_observer(self, d):
+        if d in self._observers:
+            self._observers.remove(d)
 
     def fire(self, result):
         if isinstance(result, Failure):
